@@ -314,3 +314,19 @@ CHECKS["C08"]["rule"] += (" Keeper programs may start with the only block of the
 CHECKS["C11"]["rule"] += (" One time in four the thread's own segments are force-abandoned (target_segments_per_thread, mi_collect_reduce). The creep clause is strict for memory outside arenas; for arena "
     "reservations growth in two or more repetitions after the warm-up is the violation (known finding F18: a single late step).")
 CHECKS["C12"]["rule"] += (" Helper threads sometimes leave a huge block (own segment) behind; one time in four abandoned_reclaim_on_free=1.")
+
+# additions after the sixth batch of seeded changes (two cooperating sites / deep specific history)
+CHECKS["C01"]["rule"] += (" The program's deferred-free callback (mi_register_deferred_free) is exercised: `defer` parks blocks with it and the allocator frees them "
+                          "from inside a later generic allocation or collect; the string/environment duplicating entry points (mi_mbsdup, mi_wcsdup, mi_dupenv_s, mi_realpath) are "
+                          "allocation entry points too, and mi_malloc_size / mi_malloc_usable_size / mi_malloc_good_size must agree with mi_usable_size / mi_good_size.")
+CHECKS["C03"]["rule"] += (" Aligned-thread scenario: a helper thread leaves 2-40 over-aligned blocks (interior pointers) behind, the main thread adopts the pages (forced collect, "
+                          "fresh-segment need, or not at all), frees every 2nd-4th of them locally and re-allocates the class.")
+CHECKS["C06"]["rule"] += (" Oversized sizes are also combined with alignments up to 128 MiB; a failing mi_reallocarray / mi_reallocarr is also called with errno holding a stale "
+                          "code (ENOMEM must replace it).")
+CHECKS["C08"]["rule"] += (" Keeper rounds sometimes post exactly one block of a page that was just filled (every block live, page in the full queue) and run the reuse probe.")
+CHECKS["C11"]["rule"] += (" Two more workload shapes: a 4 GiB arena (two bitmap fields) with 66-72 sparsely touched huge blocks freed in rounds over virtual time, everything freed "
+                          "inside the body; and helper threads that leave segments behind on the sub-process OS list (block aligned to 64/128 MiB) and in the arena bitmaps in turn.")
+CHECKS["C12"]["rule"] += (" Blocks may be parked with the deferred-free callback; every collect that a walk needs happens before the first walk of a census.")
+CHECKS["C19"]["rule"] += (" Alignments of 64/128 MiB (segments mapped straight from the OS, above the 48 TiB that mi_is_in_heap_region covers: identified by the agreement of the "
+                          "two usable-size functions) through every aligned entry point; reallocarray failing with a stale errno.")
+CHECKS["C20"]["rule"] += (" mi_option_set_enabled(_default), the legacy mi_stats_print(out), mi_stats_merge and mi_process_info with any subset of its out-parameters are called as well.")
